@@ -1,9 +1,6 @@
 //! Support for encapsulated uncompressed via pixel data adapter.
 
-use dicom_core::{
-    PrimitiveValue, Tag,
-    ops::{AttributeAction, AttributeOp},
-};
+use dicom_core::ops::AttributeOp;
 use dicom_encoding::{
     adapters::{
         DecodeResult, EncodeOptions, EncodeResult, PixelDataObject, PixelDataReader,
@@ -83,8 +80,6 @@ impl PixelDataWriter for UncompressedAdapter {
             .context(encode_error::MissingAttributeSnafu { name: "Pixel Data" })?
             .fragments[0];
 
-        let len_before = pixeldata_uncompressed.len();
-
         let frame_data = pixeldata_uncompressed
             .get(frame_size * frame as usize..frame_size * (frame as usize + 1))
             .whatever_context("Frame index out of bounds")?;
@@ -93,12 +88,8 @@ impl PixelDataWriter for UncompressedAdapter {
         dst.extend_from_slice(frame_data);
 
         // provide attribute changes
-        Ok(vec![
-            // Encapsulated Pixel Data Value Total Length
-            AttributeOp::new(
-                Tag(0x7FE0, 0x0003),
-                AttributeAction::Set(PrimitiveValue::from(len_before as u64)),
-            ),
-        ])
+        // (the Encapsulated Pixel Data Value Total Length
+        // covers all frames and is provided by the caller)
+        Ok(vec![])
     }
 }
